@@ -43,6 +43,7 @@ const (
 	POpNeedsTable  = "op.needsTable"
 	PStoreWrite    = "store.write"  // job -> job storage
 	PStoreRemove   = "store.remove" // job -> job storage
+	PStoreRead     = "store.read"   // job -> storage: Read of an operator's DKV checkpoints document while a savepoint artifact is built (never during Boot)
 	PSrcRead       = "src.read"     // notification: a reader handed records to its runner
 	PHandler       = "handler.process"
 	POpTimer       = "op.timer" // notification: the operator's batching timer was armed
@@ -149,6 +150,7 @@ type Options struct {
 	LogCalls  bool       // debugging: log every adapter call ("call" / "return" observations)
 	Log       io.Writer  // slog output of the code under test (default: discarded)
 	Timeout   time.Duration // boot / wait timeout (default 10s)
+	SavepointURI string     // jobs.NewParams.SavepointURI of every generation booted by this cluster ("" = none)
 }
 
 // Cluster is an in-process reduction cluster: see the package comment.
@@ -509,6 +511,7 @@ func (c *Cluster) Boot() (restored uint64, err error) {
 		var e error
 		job, e = jobs.New(&jobs.NewParams{
 			JobConfig: cfg,
+			SavepointURI: c.opt.SavepointURI,
 			Clock:     g.jobClock,
 			Store:     g.store,
 			ErrChan:   g.errChan,
